@@ -12,12 +12,12 @@ OPK = {1: "Process", 2: "Process(flush)", 3: "Process(non-Gateable)", 4: "FlushA
 # one signature per code path: FlushAll and Close share theirs, so do Process with and without the flush flag
 SIGOP = {1: "Process", 2: "Process", 3: "Process(non-Gateable)", 4: "FlushAll/Close", 5: "FlushAll/Close", 6: "Process(no id)", 7: "concurrent"}
 # at the first failing call the property-level (observation-only) oracles name the violation; model differences come after
-PRIO = ["KSentGateable", "KLinger", "KLost", "KDup", "KOrder", "KIdent", "KEmptyId", "KIndex", "KConc", "KRes", "KGated", "KSent", "KCompose", "KComp"]
+PRIO = ["KCompositeMutated", "KSentGateable", "KLinger", "KLost", "KDup", "KOrder", "KIdent", "KEmptyId", "KIndex", "KConc", "KRes", "KGated", "KSent", "KCompose", "KComp"]
 
 # which mismatch kinds speak about which property
 RELEVANT = {
     "C11": lambda k, op: k in ("KRes", "KComp", "KCompose", "KSent", "KGated", "KDup", "KOrder", "KLost", "KIdent", "KEmptyId",
-                               "KSentGateable", "KIndex", "KConc") or (k == "KLinger" and op == 7),
+                               "KSentGateable", "KIndex", "KConc", "KCompositeMutated") or (k == "KLinger" and op == 7),
     "C17": lambda k, op: k in ("KLinger", "KGated", "KSent", "KIndex") or (k == "KRes" and op in (1, 2, 4, 5, 7)) or (k in ("KDup", "KLost") and op == 7),
 }
 
@@ -58,7 +58,7 @@ def gateable_composite_reentry_part(ctx, binp=None):
         return None
     cdir = os.path.join(ctx.work, "gated-reentry")
     os.makedirs(cdir, exist_ok=True)
-    rc, out = V.run([binp, "-out", cdir, "-reentry", "-watchdog", "3s"], timeout=300)
+    rc, out = _vrun([binp, "-out", cdir, "-reentry", "-watchdog", "3s"], timeout=120)
     if rc != 0 or not os.path.exists(os.path.join(cdir, "reentry.json")):
         rp = V.write_replay(ctx, "harness-run-reentry", {"kind": "correspondence", "engine": "gatedh-crash", "output": out[-6000:]})
         ctx.violations.append({"match": "gated:harness-crash", "replay": rp, "what": "gatedh -reentry crashed", "no_input": True})
@@ -69,7 +69,16 @@ def gateable_composite_reentry_part(ctx, binp=None):
                  "plain_composites_routed_back_into_the_filter": sum(r.get("plain_composites_routed_back_into_the_filter", 0) for r in res),
                  "rule": "filter wired to the Broker whose pipeline contains it; 3 flush paths x 3 kinds of composite; each call under a 3 s watchdog"})
     ctx.coverage["evaluations"] += len(res)
-    hung = [r for r in res if r["hang"]]
+    spun = [r for r in res if r["hang"] and r["scenario"] == "sweep-oldest-expired-next-not" and r["composite"] == "plain"]
+    if spun:
+        r = spun[0]
+        rp = V.write_replay(ctx, "gated-sweep-hang", {
+            "kind": "search", "engine": "gatedh-reentry", "scenario": {k: r[k] for k in r if k != "goroutine_dump"},
+            "goroutine_dump": r.get("goroutine_dump", "")[:12000], "repro": "bin/check replay <this file>"})
+        ctx.violations.append({"match": "gated:hang", "replay": rp,
+                               "what": "gated.Filter wired to its own Broker: %s did not return within the watchdog: the expiry sweep met an expired group followed by an "
+                                       "unexpired one and never finished, holding the filter's mutex (every later call through the filter blocks)" % r.get("hung_at")})
+    hung = [r for r in res if r["hang"] and r not in spun]
     if hung:
         r = hung[0]
         rp = V.write_replay(ctx, "gated-reentry-hang", {
@@ -114,6 +123,19 @@ ENGINE = {"name": "coq-gated", "path": "coq/Gated.v coq/GatedProofs.v coq/GatedE
           "serves_properties": ["C11", "C17"], "kind_free_text": "Coq model + proofs; Go differential driver; vm_compute comparison"}
 
 
+def _vrun(cmd, env=None, timeout=600):
+    """V.run with a short timeout; a timeout comes back as rc 124 whatever vcheck.run does with it"""
+    import subprocess
+    try:
+        return V.run(cmd, env=env, timeout=timeout)
+    except subprocess.TimeoutExpired as ex:
+        out = ex.stdout if isinstance(ex.stdout, str) else (ex.stdout or b"").decode("utf-8", "replace")
+        return 124, "TIMEOUT after %ss\n%s" % (timeout, out[-3000:])
+
+
+DRIVER_TIMEOUT = {"quick": 240, "thorough": 1500}
+
+
 def _build(ctx, race=False):
     binp, out = V.go_build(ctx, "./cmd/gatedh", race=race)
     if not binp:
@@ -125,7 +147,12 @@ def _build(ctx, race=False):
 def _run_driver(ctx, binp, cdir, args, label="gatedh"):
     os.makedirs(cdir, exist_ok=True)
     env = dict(os.environ, VERIF_SEED=str(ctx.seed))
-    rc, out = V.run([binp, "-out", cdir, "-prefix", "cases"] + args, env=env, timeout=3000)
+    rc, out = _vrun([binp, "-out", cdir, "-prefix", "cases"] + args, env=env, timeout=DRIVER_TIMEOUT.get(ctx.tier, 600))
+    if rc == 124:
+        rp = V.write_replay(ctx, "harness-timeout-" + label, {"kind": "correspondence", "engine": "gatedh-crash", "output": out[-6000:]})
+        ctx.violations.append({"match": "gated:hang", "replay": rp, "no_input": True,
+                               "what": "%s did not finish within its time limit: a call on gated.Filter never returned and the driver's own watchdog did not get to report it" % label})
+        return None, None, out
     if rc != 0:
         rp = V.write_replay(ctx, "harness-run-" + label, {"kind": "correspondence", "engine": "gatedh-crash", "output": out[-6000:]})
         if "DATA RACE" in out:
@@ -229,6 +256,18 @@ def run(ctx, prop=None):
     rel = RELEVANT[prop]
     total_by_case, sigs = 0, {}
     for summ_i, cases_i in runs:
+        hangs = summ_i.get("hangs") or []
+        if hangs:
+            h = min(hangs, key=lambda x: len(x["case"].get("ops") or []) if x["case"].get("ops") else 10 ** 6)
+            rp = V.write_replay(ctx, "gated-hang", {
+                "kind": "correspondence", "engine": "gatedh", "theorem_or_correspondence": "every Process / FlushAll / Close call returns (the model's operations are total functions)",
+                "signature": "hang", "hung_call": {"index": h["call"], "op": h["op"], "watchdog_ms": h["watchdog_ms"]}, "case": h["case"],
+                "histories_hung_before_the_driver_stopped_generating": len(hangs), "goroutine_dump": (hangs[0].get("goroutine_dump") or "")[:12000],
+                "repro": "bin/check replay <this file>"})
+            ctx.violations.append({"match": "gated:hang", "replay": rp,
+                                   "what": "%s: call %d (%s) of a %d-op history on gated.Filter did not return within %d ms (spin or deadlock while holding the filter's mutex); "
+                                           "the driver stopped generating after %d hung histories" % (prop, h["call"], h["op"], len(h["case"].get("ops") or []), h["watchdog_ms"], len(hangs))})
+            part["hung_histories"] = len(hangs)
         for p in summ_i.get("panics") or []:
             cid = int(p.split()[1].rstrip(":"))
             rp = V.write_replay(ctx, "panic-%d" % cid, {"kind": "correspondence", "engine": "gatedh", "what": p, "case": cases_i.get(cid)})
@@ -270,8 +309,9 @@ def run(ctx, prop=None):
         if c.get("blocked"):
             b = c["blocked"]
             ctx.violations.append({"match": "gated:" + sig, "replay": rp,
-                                   "what": "%s: %s — a %s arrived while the Send of a %s (%d open groups%s) was in flight through the Broker: a group was composed / sent "
-                                           "more than once, or not exactly the composites built were sent (%d cases affected in total)" % (
+                                   "what": "%s: oracle %s failed in the scenario 'a %s arrives while the Send of a %s (%d open groups%s) is in flight through the Broker' "
+                                           "(KDup: a group composed / sent twice; KSent: not exactly the composites built were sent; KCompositeMutated: a composite's events "
+                                           "changed after it was built) (%d cases affected in total)" % (
                                        prop, sig, b["second"], b["first"], b["groups"], ", expired" if b.get("expired") else "", total_by_case)})
             continue
         ctx.violations.append({"match": "gated:" + sig, "replay": rp,
@@ -320,9 +360,11 @@ def replay(ctx, rec, path):
     os.makedirs(cdir, exist_ok=True)
     corpus = os.path.join(cdir, "one.jsonl")
     open(corpus, "w").write(json.dumps(rec["case"]) + "\n")
-    rc, out = V.run([binp, "-replay", path])
+    rc, out = _vrun([binp, "-replay", path], timeout=60)
     print(out)
-    rc, out = V.run([binp, "-out", cdir, "-modes", "", "-corpus", corpus])
+    if rc == 3:
+        return 1
+    rc, out = _vrun([binp, "-out", cdir, "-modes", "", "-corpus", corpus], timeout=60)
     summ = json.load(open(os.path.join(cdir, "cases_summary.json")))
     mism, failures = V.eval_shards(ctx, summ["files"], parse=_M_ITEM)
     print("model vs implementation mismatches (case, call, op, kind):", [(c, s, OPK.get(int(o), o), k) for c, s, o, k in mism], failures)
